@@ -158,7 +158,14 @@ class Check:
         if not os.path.exists(MODELRUN) or os.path.getmtime(MODELRUN) < newest:
             rc, out = sh(["bash", os.path.join(OCAML, "build.sh")], timeout=1800)
             if rc != 0:
-                raise RuntimeError("modelrun build failed:\n" + out)
+                if os.path.exists(MODELRUN):
+                    # e.g. another property's model is being edited: keep the last good runner (its models for
+                    # THIS property are unchanged unless this property's own files are the broken ones, in which
+                    # case the proof layer has already reported it)
+                    self.cov["modelrun_rebuild_failed"] = out[-600:]
+                    os.utime(MODELRUN, None)
+                else:
+                    raise RuntimeError("modelrun build failed:\n" + out)
 
     def build_harness(self, race=False, extra_overlay=None, tags="verif", pkgs=None):
         """Build the Go harness against /repo's current working tree, with the add-only
